@@ -172,7 +172,11 @@ class EinSum(Module):
         self.expr = expression
         cmd = self.expr.split("->")
         self.indices_in = [s.strip() for s in cmd[0].split(",")]
-        self.indices_out = cmd[1] if "->" in self.expr else ''
+        if "->" in self.expr:
+            self.indices_out = cmd[1].strip()
+        else:  # Implicit mode of einsum: the indices that occur only once, in alphabetical order
+            all_ind = "".join(self.indices_in)
+            self.indices_out = "".join(sorted(c for c in set(all_ind) if all_ind.count(c) == 1))
 
     def _response(self, *args):
         return [einsum(self.expr, *args, optimize=True)]
